@@ -26,9 +26,9 @@ LEAVES = [{'c': 'int', 'v': 1}, {'c': 'str', 'v': 'a'}, {'c': 'type', 'denotes':
           {'c': 'NoneType'}, {'c': 'UA'}, {'c': 'float', 'v': '3/2'}, {'c': 'bool', 'v': 1}, {'c': 'bytes', 'v': 'a'}, {'c': 'UC'}, {'c': 'EColor', 'm': 0},
           {'c': 'ENum', 'm': 0}, {'c': 'function'}, {'c': 'complex', 'v': '1'},
           {'c': 'object'}, {'c': 'UImpl'}]
-SEQS = ['list', 'tuple', 'deque', 'USeq', 'UMutSeq', 'UGenList', 'range']
+SEQS = ['list', 'tuple', 'deque', 'USeq', 'UMutSeq', 'UPatchSeq', 'UGenList', 'range']
 COLLS = ['set', 'frozenset', 'USet', 'UColl', 'dict_keys', 'dict_values', 'UIterable', 'UReversible']
-MAPS = ['dict', 'defaultdict', 'OrderedDict', 'Counter', 'ChainMap', 'UMap', 'dict_items']
+MAPS = ['dict', 'defaultdict', 'OrderedDict', 'Counter', 'ChainMap', 'UMap', 'UPatchMap', 'dict_items']
 ITER1 = ['list_iterator', 'generator', 'UIterator', 'USizedIterator']
 # numeric leaves that compare (and hash) equal across types; their payload is *pinned* in the shape
 # (equality between siblings is what they are for), the draw stays free
@@ -83,7 +83,7 @@ def long_tuples():
 def _hashable(spec):
     c = spec['c']
     if c in ('list', 'dict', 'set', 'deque', 'defaultdict', 'OrderedDict', 'Counter', 'ChainMap', 'UMutSeq', 'USet',
-             'UGenList', 'UMap', 'dict_keys', 'dict_items', 'dict_values'):
+             'UGenList', 'UMap', 'UPatchMap', 'dict_keys', 'dict_items', 'dict_values'):
         return False
     if c in ('tuple', 'frozenset'):
         return all(_hashable(k) for k in spec.get('items', []))
